@@ -441,3 +441,15 @@ brk("c01-severable-guard-or", ["C01"], (ENV, "            if severable_element i
 # ------------------------------------------------------------------ C03-D5 whole item decoded
 brk("c03-unfix-trailing-bytes", ["C03"], (C, "        if trailing_data:\n", "        if False and trailing_data:\n"))
 brk("c03-loads-again", ["C03"], (C, "            with io.BytesIO(cbstr) as stream:\n                data = cbor2.load(stream)\n                trailing_data = len(cbstr) - stream.tell()\n", "            data = cbor2.loads(cbstr)\n            trailing_data = 0\n"))
+
+# ---- from the second mutation-probe batch
+brk("c03-dump-auto-polarity", ["C03"], (TOPENV, '        if output_type == "AUTO" and file_name is not None:\n            # if AUTO mode used, check file extension and remove dot at the beginning\n            output_type = pathlib.Path(file_name).suffix[1:]\n\n        if file_name is None:\n            output_type = "STDOUT"',
+                                       '        if output_type != "AUTO" and file_name is not None:\n            # if AUTO mode used, check file extension and remove dot at the beginning\n            output_type = pathlib.Path(file_name).suffix[1:]\n\n        if file_name is None:\n            output_type = "STDOUT"'))
+brk("c03-dump-stdout-polarity", ["C03"], (TOPENV, '        if file_name is None:\n            output_type = "STDOUT"', '        if file_name is not None:\n            output_type = "STDOUT"'))
+brk("c03-dump-serializer-args-swapped", ["C03"], (TOPENV, "dump_method(file_name, self._envelope, parse_hierarchy)", "dump_method(file_name, parse_hierarchy, self._envelope)"))
+ben("c03-dump-elif-form", ["C03"], (TOPENV, '        if output_type == "AUTO" and file_name is not None:\n            # if AUTO mode used, check file extension and remove dot at the beginning\n            output_type = pathlib.Path(file_name).suffix[1:]\n\n        if file_name is None:\n            output_type = "STDOUT"',
+                                   '        if file_name is None:\n            output_type = "STDOUT"\n        elif output_type == "AUTO":\n            output_type = pathlib.Path(file_name).suffix[1:]'))
+brk("c05-placeholder-polarity", ["C05"], (SEC, "        if suit_digest_bytes.name not in obj.keys():\n            obj[suit_digest_bytes.name] = \"\"", "        if suit_digest_bytes.name in obj.keys():\n            obj[suit_digest_bytes.name] = \"\""))
+brk("c01-prepare-returns-stale-bytes", ["C01"], (IO, "        suit_obj = SuitEnvelopeTagged.from_obj(data)\n        suit_obj.update_severable_digests()\n        suit_obj.update_digest()\n        return suit_obj.to_cbor()",
+                                                 "        suit_obj = SuitEnvelopeTagged.from_obj(data)\n        raw = suit_obj.to_cbor()\n        suit_obj.update_severable_digests()\n        suit_obj.update_digest()\n        return raw"))
+brk("c01-prepare-returns-other-object", ["C01"], (IO, "        suit_obj.update_digest()\n        return suit_obj.to_cbor()\n\n    def to_suit_file(self", "        suit_obj.update_digest()\n        return SuitEnvelopeTaggedSimplified.from_obj(data).to_cbor()\n\n    def to_suit_file(self"))
